@@ -635,6 +635,11 @@ func (r *poolsRunner) runStruct(d poolsDesc, fnMap valid.Name2FnMap, o *poolsOut
 			o.api = "ValidateStruct"
 			err = valid.ValidateStruct(src, d.Tag)
 		}
+	case len(typed) == 0 && unscoped == nil && len(fnMap) == 1 && choice < 2:
+		o.api = "ValidStructForMyValidFn"
+		for n, fn := range fnMap {
+			err = valid.ValidStructForMyValidFn(src, n, fn, d.Tag)
+		}
 	case len(typed) == 0 && choice == 2:
 		o.api = "StructForFns"
 		err = valid.StructForFns(src, unscoped, fnMap, d.Tag)
